@@ -203,6 +203,25 @@ func VH_C05_page() {
 	verifReach("end")
 }
 
+// Cell-pointer array with ANY declared cell count (the page stage above bounds
+// the count by 2 to keep the per-cell work small): the count is checked against
+// the bytes that are there, every offset stays inside the page.
+//verif:unwind 40
+//verif:bounds 64-byte page, page header of 8 or 12 bytes, declared cell count 0..65535, any pointer bytes; called the way the four page constructors call it (pointers = rest of the page after the header, maxLen = page length)
+func VH_C05_cellpointers() {
+	b := verifBytes(64)
+	h := 8 + 4*verifChoice(2)
+	n := int(b[3])<<8 | int(b[4])
+	cs, err := parseCellpointers(n, b[h:], len(b))
+	if err == nil {
+		verifAssert(len(cs) == n, "one offset per declared cell")
+		verifAssert(2*n <= len(b)-h, "the declared cells fit the pointer array")
+		verifReach("accepted")
+	} else {
+		verifReach("rejected")
+	}
+}
+
 // Traversal stage: child pointers are hostile. Every page number resolves to
 // the same interior page (a cycle through itself): the scan must end with an
 // error within a budget proportional to the recursion limit, not explore
